@@ -257,7 +257,8 @@ def run(ctx: Ctx) -> None:
         lv2 = ["IMMEDIATE", "IGNORE"]
         plan.append(("mutants", d, k0 + ident[:30 if quick else 120:1], lv_all, True))
         plan.append(("mutants", d, k1 if not quick else k1[::2], lv2 if quick else lv_all, False))
-        plan.append(("mutants", d, ident[30:130] if quick else ident[120:], lv2, False))
+        # delete / duplicate / swap mutants and prefixes of the whole fixture corpus (quick: base + 3 dialects)
+        plan.append(("mutants", d, (ident[30:] if d in ("", "duckdb", "bigquery", "tsql") else ident[30:130]) if quick else ident[120:], lv2, False))
         plan.append(("soups", d, 3 if (quick or d) else 4, lv2))
         plan.append(("pump", d, lv2))
     for d in (dialects if quick else all_dialects()):
